@@ -253,7 +253,12 @@ def cli_case(ctx, case, fmt, mode, use_dir):
              sample={'mode': mode, 'fmt': fmt, 'lines': len(texts), 'distinct': len(set(texts)), 'logged_total': total})
     ctx.traces_validated += 1
     if dup or (total is not None and total != len(set(texts))):
-        f1 = fmt == 'N-TRIPLES' and any(len(t['subject'].get('graphs', [])) + len(pom.get('graphs', [])) >= 2 for t in case.doc['tms'] for pom in t['poms'])
+        # scope of C03_F1: N-TRIPLES, and some statement-generating construct (a predicate-object map, or a class of the subject map)
+        # has two or more graph maps, so its rules differ only in the graph component of their labels
+        f1 = fmt == 'N-TRIPLES' and any(
+            any(len(t['subject'].get('graphs', [])) + len(pom.get('graphs', [])) >= 2 for pom in t['poms'])
+            or (t['subject'].get('classes') and len(t['subject'].get('graphs', [])) >= 2)
+            for t in case.doc['tms'])
         ctx.violation(f'the output holds {dup} duplicate line(s); logged total {total}, distinct statements {len(set(texts))}', inp,
                       finding='C03_F1' if f1 else triage(case, fmt, '', '', ''))
 
